@@ -297,6 +297,9 @@ func (ce *CEnv) ident(name string) CVal {
 			return ce.pkgObject(obj)
 		}
 	}
+	if region, t, ok := ce.u.globalGhost(name); ok {
+		return CVal{T: ce.u.heapGet(ce.heap, region), Ty: t}
+	}
 	efail("unknown identifier %s", name)
 	return CVal{}
 }
@@ -722,7 +725,7 @@ func namedOf(t types.Type) *types.Named {
 	if p, ok := t.(*types.Pointer); ok {
 		t = p.Elem()
 	}
-	n, _ := t.(*types.Named)
+	n, _ := types.Unalias(t).(*types.Named)
 	return n
 }
 
@@ -862,6 +865,20 @@ func (ce *CEnv) call(e *ECall) CVal {
 			efail("typeIs: second argument must be a type")
 		}
 		return CVal{T: mkEq(mk(SInt, "if-tag", x.T), ce.u.typeTag(ty)), Ty: types.Typ[types.Bool]}
+	case "asType":
+		// asType(x, T): the value held by interface x, read as a T (meaningful when typeIs(x, T))
+		x := ce.eval(e.Args[0])
+		var ty types.Type
+		if te, ok := e.Args[1].(*EType); ok {
+			ty = ce.resolveType(te.T)
+		} else if id, ok := e.Args[1].(*EIdent); ok {
+			ty = ce.resolveType(TypeExpr{Name: id.Name})
+		} else if sel, ok := e.Args[1].(*ESel); ok {
+			ty = ce.resolveType(TypeExpr{Name: sel.X.String() + "." + sel.F})
+		} else {
+			efail("asType: second argument must be a type")
+		}
+		return CVal{T: ce.u.unbox(mk(SInt, "if-val", x.T), ce.te().sortOf(ty)), Ty: ty}
 	case "fresh":
 		// fresh(x): reference allocated during this call (>= entry watermark)
 		x := ce.eval(e.Args[0])
